@@ -467,7 +467,8 @@ class Gen:
         return ["try", forms, handlers, els, fin], info
 
     def g_with(self, want, depth, env):
-        n = self.integer(1, 2)
+        wide = self.forms is not None and "withpre" in self.forms
+        n = self.integer(1, 3 if wide else 2)
         mgrs, info = [], Info()
         info.eff = True
         benv = env.child()
@@ -475,7 +476,11 @@ class Gen:
             var = self.fresh("m") if self.integer(0, 1) else None
             sup = bool(want == "any" and self.integer(0, 2) == 0)
             ev = self.lit("int")
-            mgrs.append([var, next(self.ids), ev, sup])
+            m = [var, next(self.ids), ev, sup]
+            if wide and self.integer(0, 3) == 0:
+                # manager expression that compiles to statements: (do (E k 0) (CM ...))
+                m.append(next(self.ids))
+            mgrs.append(m)
             if var:
                 benv.vars[var] = "int"
                 benv.no_write = set(benv.no_write) | {var}
